@@ -106,6 +106,36 @@ func (i *interpreter) deepEq(t types.Type, x, y value, seen map[[2]*value]bool, 
 		}
 		return i.deepEq(ix.t, ix.v, iy.v, seen, ignore)
 	case *types.Map:
+		if dx, ok := x.(*docMap); ok {
+			dy, ok := y.(*docMap)
+			return b2s(ok && (dx == nil) == (dy == nil) && (dx == nil || dx.n == dy.n))
+		}
+		if sx, ok := x.(*symMap); ok {
+			sy, ok := y.(*symMap)
+			if !ok || (sx == nil) != (sy == nil) {
+				return ff
+			}
+			if sx == nil {
+				return tt
+			}
+			if len(sx.keys) != len(sy.keys) {
+				return ff
+			}
+			res := tt
+			for k := range sx.keys {
+				if sx.keys[k] != sy.keys[k] {
+					return ff
+				}
+				res = symAnd(res, i.deepEq(u.Elem(), sx.vals[k], sy.vals[k], seen, ignore))
+			}
+			return res
+		}
+		if _, ok := y.(*docMap); ok {
+			return b2s(mapIsNil(x) && y.(*docMap) == nil)
+		}
+		if _, ok := y.(*symMap); ok {
+			return b2s(mapIsNil(x) && y.(*symMap) == nil)
+		}
 		kx, vx := mapEntries(x)
 		ky, vy := mapEntries(y)
 		if (kx == nil) != (ky == nil) || len(kx) != len(ky) {
